@@ -67,6 +67,8 @@ def run(rep, tier):
         ('DRIVER-exits', 'success -> _finalize_parse_info(...); failure -> error function called, raise'),
         ('DRIVER-memo-per-call', 'the memo is a fresh local dictionary of each driver call'),
         ('DRIVER-coordinates', 'the driver never rebinds the text / position / start it was given while rule functions run'),
+        ('C15-dedup-identity', 'the conversion walk (visit) de-duplicates by identity only and yields every object once'),
+        ('SPAN-convert', 'every instance reachable from the result has its span converted (shared with C10)'),
         ('FINALIZE-exits', 'PartialParseError(nodes, position at pos, excerpt) iff fullparse and pos < len(text); '
                            'otherwise the same value is returned'),
         ('TABLE-index', 'every subscript of the per-index tables is guarded by index < len(text)'),
@@ -108,8 +110,17 @@ def run(rep, tier):
         exception_classes(tree, what, rep)
         rep.count('runtime copies analysed')
         for rule, msg in found:
-            if rule in ('DRIVER-exits', 'FINALIZE-exits', 'TABLE-index', 'BYTES-safe'):
+            if rule in ('DRIVER-exits', 'FINALIZE-exits', 'TABLE-index', 'BYTES-safe', 'SPAN-convert', 'SPAN-convert-once'):
                 rep.add(Finding(rule, f'{rel}:runtime', '', msg, f'{rel} ({what})'))
+        # every successful outcome (and the partial_result of PartialParseError) passes through the walk that
+        # converts the recorded spans: it reaches every object once, by identity, iteratively (no hashing or
+        # comparing of nodes, which recurse through the value and can raise RecursionError)
+        from .. import walkers
+        vfound = []
+        walkers.check_visit(fns['visit'], f'{what}:visit', lambda r, m: vfound.append((r, m)))
+        for rule, msg in vfound:
+            if rule in ('C15-dedup', 'C15-dedup-identity', 'C15-visit-yield', 'C15-children'):
+                rep.add(Finding(rule, f'{rel}:visit', '', msg, f'{rel} ({what})'))
         rep.obligations += 3
         rep.discharged += 3 - len({r for r, _ in found if r in ('DRIVER-exits', 'FINALIZE-exits', 'TABLE-index')})
     rep.count('finalize/driver obligations', n)
